@@ -51,6 +51,17 @@ theorem orUp_false_eq (b : α) (ops : List (Opd α)) :
   simp only [Bool.false_eq_true, if_false, sum_termLo_neg, sum_termHi_neg, ← clamp01_one_sub]
   congr 2 <;> ring
 
+/-- for non-negative weights either Or variant is the plain one -/
+theorem orUp_variant_eq_any (t : Bool) (b : α) (ops : List (Opd α)) (h : ∀ o ∈ ops, 0 ≤ o.w) :
+    orUp t b ops = orUp false b ops := by
+  cases t with
+  | false => rfl
+  | true => exact orUp_variant_eq b ops h
+
+theorem exists_mem_map_iff {β γ : Type} (f : β → γ) (l : List β) (P : γ → Prop) :
+    (∃ y ∈ l.map f, P y) ↔ ∃ x ∈ l, P (f x) := by
+  simp
+
 /-! ### sums of `{0,1}`-lists -/
 
 theorem sum01_nonneg (ys : List α) (h : ∀ y ∈ ys, y = 0 ∨ y = 1) : 0 ≤ ys.sum := by
@@ -96,5 +107,203 @@ theorem clamp_sum01 (ys : List α) (h : ∀ y ∈ ys, y = 0 ∨ y = 1) :
   split
   next hall => rw [sum_all_zero ys hall]; exact clamp01_of_nonpos le_rfl
   next hn => exact clamp01_of_one_le (sum01_one_le ys h (exists_one_of_not_all_zero ys h hn))
+
+/-! ### engine: contradiction arresting never fires on satisfiable bounds -/
+
+theorem isContra_of_le (a : α) (b : Bounds α) (h : b.lo ≤ b.hi) : isContra a b = false := by
+  have : ¬ (b.lo > b.hi) := not_lt.mpr h
+  unfold isContra
+  simp [this]
+
+theorem arrested_of_sat (kb : KB ι α) (v : ι → α) (s : State ι α) (hs : Sat v s) (i : ι) :
+    arrested kb s i = false := by
+  have hc : ∀ a j, isContra a (s j) = false :=
+    fun a j => isContra_of_le a _ (le_trans (hs j).1 (hs j).2)
+  unfold arrested
+  simp [hc]
+
+/-! ### engine: aggregation with points -/
+
+theorem aggregate_to_point (prev : Bounds α) (x : α) (h0 : 0 ≤ x) (h1 : x ≤ 1) (hp : prev.Has x) :
+    (aggregate .both prev ⟨x, x⟩).1 = ⟨x, x⟩ := by
+  unfold aggregate
+  simp only [reduceCtorEq, if_false]
+  rw [max_eq_right hp.1, min_eq_right hp.2, clamp01_of_mem h0 h1]
+
+theorem aggregate_from_point (new : Bounds α) (x : α) (h0 : 0 ≤ x) (h1 : x ≤ 1) (hn : new.Has x) :
+    (aggregate .both ⟨x, x⟩ new).1 = ⟨x, x⟩ := by
+  unfold aggregate
+  simp only [reduceCtorEq, if_false]
+  rw [max_eq_left hn.1, min_eq_left hn.2, clamp01_of_mem h0 h1]
+
+/-- aggregating onto a point whose value survives leaves the point unchanged, whatever is proposed -/
+theorem aggregate_from_point' (p : Bounds α) (x : α) (h0 : 0 ≤ x) (h1 : x ≤ 1)
+    (h : (aggregate .both ⟨x, x⟩ p).1.Has x) : (aggregate .both ⟨x, x⟩ p).1 = ⟨x, x⟩ := by
+  unfold aggregate Bounds.Has at *
+  simp only [reduceCtorEq, if_false] at *
+  have hl : clamp01 (max x p.lo) = x :=
+    le_antisymm h.1 (le_clamp01_of_le h1 (le_max_left _ _))
+  have hu : clamp01 (min x p.hi) = x :=
+    le_antisymm (clamp01_le_of_le h0 (min_le_left _ _)) h.2
+  rw [hl, hu]
+
+/-- the unknown interval is neutral for aggregation inside the unit square -/
+theorem aggregate_unknown (x : Bounds α) (hl0 : 0 ≤ x.lo) (hl1 : x.lo ≤ 1) (hu0 : 0 ≤ x.hi)
+    (hu1 : x.hi ≤ 1) : aggregate .both ⟨0, 1⟩ x = (x, |x.lo - 0| + |x.hi - 1|) := by
+  unfold aggregate
+  simp only [reduceCtorEq, if_false]
+  rw [max_eq_right hl0, min_eq_right hu1, clamp01_of_mem hl0 hl1, clamp01_of_mem hu0 hu1]
+
+/-! ### engine: activations on point operands -/
+
+theorem opds_point (n : Node ι α) (s : State ι α) (v : ι → α)
+    (h : ∀ j ∈ n.ops, s j = ⟨v j, v j⟩) :
+    opds n s = List.zipWith (fun j w => (⟨w, v j, v j⟩ : Opd α)) n.ops n.ws := by
+  unfold opds
+  generalize n.ws = ws
+  generalize n.ops = ops at *
+  induction ops generalizing ws with
+  | nil => simp
+  | cons j ops ih =>
+    cases ws with
+    | nil => simp
+    | cons w ws =>
+      simp only [List.zipWith_cons_cons]
+      rw [h j (List.mem_cons_self ..), ih ws (fun k hk => h k (List.mem_cons_of_mem _ hk))]
+
+/-- on point operands the upward activation of a connective is the point of its truth function -/
+theorem actUp_point (n : Node ι α) (s : State ι α) (v : ι → α) (hs : Sat v s)
+    (hw : ∀ w ∈ n.ws, 0 ≤ w) (h : ∀ j ∈ n.ops, s j = ⟨v j, v j⟩)
+    (hk : n.kind ≠ .neg) (y : α) (hy : nodeVal n v = some y) : actUp n s = ⟨y, y⟩ := by
+  unfold nodeVal at hy
+  unfold actUp
+  cases hkind : n.kind with
+  | atom => rw [hkind] at hy; simp at hy
+  | neg => exact absurd hkind hk
+  | and =>
+    rw [hkind] at hy
+    simp only [Option.some.injEq] at hy
+    simp only
+    rw [opds_point n s v h]
+    unfold andUp
+    simp only [List.map_zipWith, termLo, termHi, hy]
+  | or =>
+    rw [hkind] at hy
+    simp only [Option.some.injEq] at hy
+    simp only
+    have hz := minw_sum_zero (opds n s) (inBox_opds n s v hs hw).weights
+    unfold orUp
+    simp only
+    have hc : (if n.transparent = true then ((opds n s).map (fun o => min o.w 0)).sum else (0:α)) = 0 := by
+      split <;> simp [hz]
+    rw [hc, opds_point n s v h]
+    simp only [List.map_zipWith, sub_zero, hy]
+  | implies =>
+    rw [hkind] at hy
+    simp only at hy
+    split at hy
+    next x wx z wz hz =>
+      obtain ⟨ho, _⟩ := implies_shape n s v x z wx wz hz
+      have hx : x ∈ n.ops := (List.of_mem_zip (by rw [hz]; simp : (x, wx) ∈ List.zip n.ops n.ws)).1
+      have hzm : z ∈ n.ops := (List.of_mem_zip (by rw [hz]; simp : (z, wz) ∈ List.zip n.ops n.ws)).1
+      simp only [Option.some.injEq] at hy
+      simp only
+      rw [ho, h x hx, h z hzm]
+      unfold impliesUp
+      simp only [hy]
+    next => simp at hy
+
+/-! ### engine: one upward step -/
+
+/-- a node with a defined truth function whose operands are all at their point value is set to its
+own point value by `upward` -/
+theorem stepUp_point (kb : KB ι α) (v : ι → α) (s : State ι α) (i : ι)
+    (hwf : WF kb) (hv : Consistent kb v) (hs : Sat v s)
+    (h : ∀ j ∈ (kb i).ops, s j = ⟨v j, v j⟩) (hsome : (nodeVal (kb i) v).isSome) :
+    (stepUp kb i s).1 = Function.update s i ⟨v i, v i⟩ := by
+  obtain ⟨y, hy⟩ := Option.isSome_iff_exists.mp hsome
+  obtain ⟨h0, h1, hval⟩ := hv i
+  have hvy : v i = y := hval y hy
+  have conn : (kb i).kind ≠ .neg →
+      (if arrested kb s i then (s, (0:α)) else
+        (Function.update s i (aggregate .both (s i) (actUp (kb i) s)).1,
+          (aggregate .both (s i) (actUp (kb i) s)).2)).1 = Function.update s i ⟨v i, v i⟩ := by
+    intro hk
+    rw [arrested_of_sat kb v s hs i]
+    simp only [Bool.false_eq_true, if_false]
+    rw [actUp_point (kb i) s v hs (hwf i).1 h hk y hy, ← hvy, aggregate_to_point _ _ h0 h1 (hs i)]
+  unfold stepUp
+  simp only
+  cases hkind : (kb i).kind with
+  | atom => unfold nodeVal at hy; rw [hkind] at hy; simp at hy
+  | neg =>
+    simp only
+    cases hops : (kb i).ops with
+    | nil => unfold nodeVal at hy; rw [hkind, hops] at hy; simp at hy
+    | cons j rest =>
+      simp only
+      have hj : s j = ⟨v j, v j⟩ := h j (by rw [hops]; exact List.mem_cons_self ..)
+      have : v i = 1 - v j := by apply hval; unfold nodeVal; rw [hkind, hops]
+      rw [hj]
+      unfold negB
+      simp only
+      rw [← this, aggregate_to_point _ _ h0 h1 (hs i)]
+  | and => simpa using conn (by simp [hkind])
+  | or => simpa using conn (by simp [hkind])
+  | implies => simpa using conn (by simp [hkind])
+
+/-- `upward` either leaves the state alone or aggregates one proposal onto the node itself -/
+theorem stepUp_form (kb : KB ι α) (i : ι) (s : State ι α) :
+    (stepUp kb i s).1 = s ∨
+      ∃ p, (stepUp kb i s).1 = Function.update s i (aggregate .both (s i) p).1 := by
+  unfold stepUp
+  simp only
+  cases (kb i).kind with
+  | atom => left; rfl
+  | neg =>
+    simp only
+    cases (kb i).ops with
+    | nil => left; rfl
+    | cons j rest => right; exact ⟨_, rfl⟩
+  | and =>
+    simp only
+    split
+    · left; rfl
+    · right; exact ⟨_, rfl⟩
+  | or =>
+    simp only
+    split
+    · left; rfl
+    · right; exact ⟨_, rfl⟩
+  | implies =>
+    simp only
+    split
+    · left; rfl
+    · right; exact ⟨_, rfl⟩
+
+/-- a node at its point value never moves again -/
+theorem stepUp_keeps_point (kb : KB ι α) (v : ι → α) (s : State ι α) (i : ι)
+    (hwf : WF kb) (hv : Consistent kb v) (hs : Sat v s) (j : ι) (hj : s j = ⟨v j, v j⟩) :
+    (stepUp kb i s).1 j = ⟨v j, v j⟩ := by
+  have hs' := stepUp_sound kb v s i hwf hv hs
+  rcases stepUp_form kb i s with h | ⟨p, h⟩
+  · rw [h]; exact hj
+  · by_cases hji : j = i
+    · subst hji
+      have hsat := hs' j
+      rw [h] at hsat ⊢
+      simp only [Function.update_self] at hsat ⊢
+      rw [hj] at hsat ⊢
+      exact aggregate_from_point' p (v j) (hv j).1 (hv j).2.1 hsat
+    · rw [h, Function.update_of_ne hji]; exact hj
+
+theorem runSteps_up_keeps_point (kb : KB ι α) (v : ι → α) (sched : List ι) (s : State ι α)
+    (hwf : WF kb) (hv : Consistent kb v) (hs : Sat v s) (j : ι) (hj : s j = ⟨v j, v j⟩) :
+    (runSteps kb (sched.map Step.up) s).1 j = ⟨v j, v j⟩ := by
+  induction sched generalizing s with
+  | nil => simpa [runSteps] using hj
+  | cons i rest ih =>
+    simp only [List.map_cons, runSteps, runStep]
+    exact ih _ (stepUp_sound kb v s i hwf hv hs) (stepUp_keeps_point kb v s i hwf hv hs j hj)
 
 end LNN
